@@ -428,6 +428,23 @@ pub fn execute_found(sc: &Scenario, acc: &mut Acc, mode: Mode) -> Result<Vec<Fou
                 let vs = expect_restore_equals(&mut cw, acc, prop, Some(id), &v.snap, v.opts.owner, &format!("after crash: restore of b{id:04}"));
                 out.extend(vs);
             }
+            // ... and so does the default request, "the latest complete version"
+            {
+                let new_is_complete = b.new_band.and_then(|nb| view.bands.get(&nb)).map(|bv| bv.is_closed() && bv.head_ok()).unwrap_or(false);
+                let expected = if new_is_complete {
+                    // tail written: by the format's rule the new version is the latest complete one
+                    b.new_band.map(|nb| (nb, cw.snap.clone(), opts.owner))
+                } else {
+                    cw.complete_versions().into_iter().filter(|id| Some(*id) != b.new_band).max().map(|id| (id, cw.versions[&id].snap.clone(), cw.versions[&id].opts.owner))
+                };
+                if let Some((id, snap, owner)) = expected {
+                    acc.hit("default_restore_after_crash");
+                    for mut x in expect_restore_equals(&mut cw, acc, prop, None, &snap, owner, &format!("after crash: restore of the latest complete version (b{id:04})")) {
+                        x.oracle = format!("latest_complete_{}", x.oracle);
+                        out.push(x);
+                    }
+                }
+            }
             // (c) no entry anywhere refers to a missing or short block
             for (band, path, why) in dangling_references(&view) {
                 out.push(Violation::new(prop, "no_dangling_reference", why.clone(), format!("b{band:04} {path:?}: block {why}")));
